@@ -25,17 +25,46 @@ inductive Out where
   | unmodelled (why : String)
 deriving Repr, Inhabited, BEq
 
+/-- sequencing: feed a successful rendering to the decoder -/
+def Out.bind : Out → (Val → Out) → Out
+  | .ok v, f => f v
+  | o, _ => o
+
 /-- yaml.v3 writes a nil slice as `[]` and a nil map as `{}` (encoding/json writes `null`) -/
 def nilAs (z : Val) (f : Val → Out) : Val → Out
   | .null => .ok z
   | v => f v
 
-/-! ## decimal text -/
+/-! ## decimal text (own definitions: structural, so that concrete instances reduce in the kernel) -/
 
 def isDigit (c : Char) : Bool := '0' ≤ c && c ≤ '9'
 
+def digitChar (d : Nat) : Char := Char.ofNat (48 + d)
+
+/-- most significant digit first; `fuel > n` is always enough -/
+def natDigitsAux : Nat → Nat → List Char → List Char
+  | 0, _, acc => acc
+  | f + 1, n, acc => if n < 10 then digitChar n :: acc else natDigitsAux f (n / 10) (digitChar (n % 10) :: acc)
+
+def natDigits (n : Nat) : List Char := natDigitsAux (n + 1) n []
+
+def digitsVal (ds : List Char) : Nat := ds.foldl (fun a c => a * 10 + (c.toNat - 48)) 0
+
+/-- `strconv`-style unsigned decimal: non-empty, digits only (no sign, no underscore) -/
+def parseNat? (cs : List Char) : Option Nat :=
+  if cs.isEmpty || !cs.all isDigit then none else some (digitsVal cs)
+
+/-- `strconv.ParseInt(s, 10, 64)` without the range check -/
+def parseInt? (cs : List Char) : Option Int :=
+  match cs with
+  | '-' :: r => (parseNat? r).map fun n => -(n : Int)
+  | '+' :: r => (parseNat? r).map fun n => (n : Int)
+  | r => (parseNat? r).map fun n => (n : Int)
+
 /-- `fmt.Sprintf("%d", n)` -/
-def fmtInt (i : Int) : String := i.repr
+def fmtInt : Int → String
+  | .ofNat n => String.ofList (natDigits n)
+  | .negSucc n => String.ofList ('-' :: natDigits (n + 1))
 
 /-- `fmt.Sprint(e)` for the scalars a YAML tree can hold (strings unchanged) -/
 def sprint : Val → String := Val.fmtV
@@ -62,12 +91,13 @@ def exactOrUnmodelled (n : Nat) : Out :=
 
 /-- `units.RAMInBytes` on the inputs whose float64 arithmetic is exact: `[-]digits[ ]?[kmgtp]?[i]?[b]?` -/
 def ramInBytes (s : String) : Out :=
-  match s.toNat? with
+  let cs := s.toList
+  match parseNat? cs with
   | some n => exactOrUnmodelled n
   | none =>
-    match s.toList with
+    match cs with
     | '-' :: ds =>
-      match (String.ofList ds).toNat? with
+      match parseNat? ds with
       | some 0 => .ok (.int 0)
       | some _ => .err "invalid-size"
       | none => .unmodelled "size syntax"
@@ -75,7 +105,7 @@ def ramInBytes (s : String) : Out :=
       let num := cs.takeWhile isDigit
       let rest := cs.dropWhile isDigit
       let sfx := (match rest with | ' ' :: r => r | r => r).map Char.toLower
-      match (String.ofList num).toNat?, sfx with
+      match parseNat? num, sfx with
       | some n, ['b'] => exactOrUnmodelled n
       | some n, [u] | some n, [u, 'b'] | some n, [u, 'i', 'b'] =>
         match unitMul u with
@@ -105,8 +135,8 @@ def decode_DeviceCount : Val → Out
   | .null => .ok (.int 0)        -- mapstructure leaves the zero value on a nil input
   | .int i => .ok (.int i)
   | .str s =>
-    if s.toLower == "all" then .ok (.int (-1)) else
-    match s.toInt? with
+    if s.toList.map Char.toLower == "all".toList then .ok (.int (-1)) else
+    match parseInt? s.toList with
     | some i => .ok (.int i)      -- int64 range is not modelled
     | none => .err "invalid-count"
   | _ => .err "invalid-type"
@@ -184,10 +214,16 @@ def cutEq (s : String) : String × String × Bool :=
   | none => (s, "", false)
   | some i => (String.ofList (cs.take i), String.ofList (cs.drop (i + 1)), true)
 
+/-- one map entry of `Mapping` / `Labels` / `Options`: nil → "", scalars through `fmt.Sprint` -/
+def entryStr (p : String × Val) : String × Val := (p.1, .str (match p.2 with | .null => "" | e => sprint e))
+
+/-- one map entry of `MappingWithEquals`: nil stays nil -/
+def entryPtr (p : String × Val) : String × Val := (p.1, match p.2 with | .null => .null | e => .str (sprint e))
+
 /-- `Mapping.DecodeMapstructure`: nil → "", scalars through `fmt.Sprint`; list entries are cut at the first `=` -/
 def decode_Mapping : Val → Out
   | .null => .ok .null
-  | .map kvs => guardScalars (kvs.map Prod.snd) (.ok (.map (kvs.map fun (k, e) => (k, .str (match e with | .null => "" | e => sprint e)))))
+  | .map kvs => guardScalars (kvs.map Prod.snd) (.ok (.map (kvs.map entryStr)))
   | .seq xs => guardScalars xs (.ok (.map (assignAll (xs.map fun x => let (k, e, _) := cutEq (sprint x); (k, .str e)))))
   | _ => .err "invalid-type"
 
@@ -197,13 +233,13 @@ def decode_Labels : Val → Out := decode_Mapping
 /-- `Options.DecodeMapstructure` (maps only) -/
 def decode_Options : Val → Out
   | .null => .ok .null
-  | .map kvs => guardScalars (kvs.map Prod.snd) (.ok (.map (kvs.map fun (k, e) => (k, .str (match e with | .null => "" | e => sprint e)))))
+  | .map kvs => guardScalars (kvs.map Prod.snd) (.ok (.map (kvs.map entryStr)))
   | _ => .err "invalid-type"
 
 /-- `MappingWithEquals.DecodeMapstructure`: nil stays nil; a list entry without `=` is nil -/
 def decode_MappingWithEquals : Val → Out
   | .null => .ok .null
-  | .map kvs => guardScalars (kvs.map Prod.snd) (.ok (.map (kvs.map fun (k, e) => (k, match e with | .null => .null | e => .str (sprint e)))))
+  | .map kvs => guardScalars (kvs.map Prod.snd) (.ok (.map (kvs.map entryPtr)))
   | .seq xs => guardScalars xs (.ok (.map (assignAll (xs.map fun x =>
       let (k, e, ok) := cutEq (sprint x)
       (k, if ok then .str e else .null)))))
@@ -371,8 +407,6 @@ def decode_SSHConfig : Val → Out
 
 /-! ## Duration — `types/duration.go`, `time.Duration.String`, `time.ParseDuration` -/
 
-def digitChar (d : Nat) : Char := Char.ofNat (48 + d)
-
 /-- `fmtFrac`: the low `prec` decimal digits of `v` without trailing zeros, with the point if any is printed -/
 def fracLoop : Nat → Nat → Bool → List Char → List Char × Nat
   | 0, v, pr, acc => (if pr then '.' :: acc else acc, v)
@@ -381,7 +415,7 @@ def fracLoop : Nat → Nat → Bool → List Char → List Char × Nat
     let pr' := pr || d != 0
     fracLoop n (v / 10) pr' (if pr' then digitChar d :: acc else acc)
 
-def natStr (n : Nat) : List Char := n.repr.toList
+def natStr (n : Nat) : List Char := natDigits n
 
 /-- `time.Duration.String` -/
 def durString (d : Int) : String :=
@@ -414,8 +448,6 @@ def durUnit : List Char → Option Nat
   | _ => none
 
 def two63 : Nat := 9223372036854775808
-
-def digitsVal (ds : List Char) : Nat := ds.foldl (fun a c => a * 10 + (c.toNat - 48)) 0
 
 inductive DurRes where
   | ok (n : Nat)
